@@ -58,7 +58,7 @@ type Fault struct {
 }
 
 var plural2kind = map[string]string{"configmaps": "ConfigMap", "secrets": "Secret", "serviceaccounts": "ServiceAccount",
-	"services": "Service", "namespaces": "Namespace", "pods": "Pod"}
+	"services": "Service", "namespaces": "Namespace", "pods": "Pod", "jobs": "Job"}
 
 func New() *Server {
 	return &Server{Objs: map[string]map[string]interface{}{}, Started: map[string]int{}, Ended: map[string]int{}}
@@ -97,6 +97,10 @@ func (s *Server) RoundTrip(req *http.Request) (*http.Response, error) {
 	// strip optional api/v1 prefix
 	for len(parts) > 0 && (parts[0] == "api" || parts[0] == "v1") {
 		parts = parts[1:]
+	}
+	// ... or apis/<group>/<version> (batch/v1 Jobs: C12 hook kinds)
+	if len(parts) >= 3 && parts[0] == "apis" {
+		parts = parts[3:]
 	}
 	var plural, name, ns string
 	switch {
@@ -364,7 +368,11 @@ func Object(kind, name string, fields map[string]string) map[string]interface{} 
 	if len(ann) > 0 {
 		md["annotations"] = ann
 	}
-	o := map[string]interface{}{"apiVersion": "v1", "kind": kind, "metadata": md}
+	apiVersion := "v1"
+	if kind == "Job" {
+		apiVersion = "batch/v1"
+	}
+	o := map[string]interface{}{"apiVersion": apiVersion, "kind": kind, "metadata": md}
 	if len(data) > 0 {
 		o["data"] = data
 	}
